@@ -218,6 +218,9 @@ func c16Families(tier string) []explore.Family {
 			// split and join are inverse on separator-free, non-empty pieces
 			for _, sep := range []string{",", "a", "é", "+%"} {
 				pieces := strings.Split(s, sep)
+				if s == "" {
+					pieces = nil // the empty list of pieces joins to "", so "" splits into no pieces
+				}
 				good := true
 				for _, p := range pieces {
 					if p == "" {
